@@ -43,6 +43,8 @@ def c05_events(p0: bool, t0: int, p1: bool, t1: int, p2: bool, t2: int, p3: bool
     begin()
     sh = SHAPE
     P, TT = _state(p0, t0, p1, t1, p2, t2, p3, t3)
+    if not W.consistent(sh, P, TT):
+        return True  # not reachable by any history (chains of dependent sources)
     w = W.World(W.NOW)
     b = W.build(sh, w, P, TT)
     S = W.stale_oracle(sh, P, TT, hf, ft)
@@ -98,6 +100,8 @@ def c03_step(p0: bool, t0: int, p1: bool, t1: int, p2: bool, t2: int, p3: bool, 
     begin()
     sh = SHAPE
     P, TT = _state(p0, t0, p1, t1, p2, t2, p3, t3)
+    if not W.consistent(sh, P, TT):
+        return True  # not reachable by any history (chains of dependent sources)
     for j in range(sh.n):  # sources exist (a missing source is a failing run, not this property)
         if sh.roles[j] == "src" and not sh.preds[j] and not P[j]:
             return True
@@ -118,7 +122,7 @@ def c03_step(p0: bool, t0: int, p1: bool, t1: int, p2: bool, t2: int, p3: bool, 
     U2 = W.looks_up_to_date(sh, P2, T2)
     scratch = b.scratch
     for j in range(sh.n):
-        if sh.roles[j] == "store" or (sh.roles[j] == "src" and sh.preds[j]):
+        if sh.roles[j] in ("store", "slit") or (sh.roles[j] == "src" and sh.preds[j]):
             correct = b.stores[j].val == _raw(scratch[j])
             if U2[j] and not correct:
                 return False  # invariant I broken: the next run would trust a wrong value
@@ -142,7 +146,7 @@ def c03_step(p0: bool, t0: int, p1: bool, t1: int, p2: bool, t2: int, p3: bool, 
         if sh.out is not None and out != scratch[sh.out]:
             return False
         for j in range(sh.n):
-            if sh.roles[j] == "store" and not (b.stores[j].present and b.stores[j].val == scratch[j]):
+            if sh.roles[j] in ("store", "slit") and not (b.stores[j].present and b.stores[j].val == scratch[j]):
                 return False
         later = w.log[w2log:]
         for j in done:
@@ -202,6 +206,8 @@ def c09_order(p0: bool, t0: int, p1: bool, t1: int, p2: bool, t2: int, p3: bool,
     begin()
     sh = SHAPE
     P, TT = _state(p0, t0, p1, t1, p2, t2, p3, t3)
+    if not W.consistent(sh, P, TT):
+        return True  # not reachable by any history (chains of dependent sources)
     w = W.World(W.NOW)
     b = W.build(sh, w, P, TT, None, normalise=True)
     S = W.stale_oracle(sh, P, TT, hf, ft)
@@ -224,6 +230,12 @@ def c09_order(p0: bool, t0: int, p1: bool, t1: int, p2: bool, t2: int, p3: bool,
     if sorted(wn) != writes or sorted(rn) != reads:
         return False
     for j in range(sh.n):
+        if sh.roles[j] == "lit":
+            continue  # a plain literal stays or is spliced out (dependency-only literals are pruned when that adds no edges)
+        if sh.roles[j] == "slit":
+            if (b.nodes[j] in g) != (j in writes):
+                return False
+            continue
         if (b.nodes[j] in g) != (j in executed and sh.roles[j] != "src"):
             return False
     for j in writes:
@@ -274,6 +286,36 @@ def c09_order(p0: bool, t0: int, p1: bool, t1: int, p2: bool, t2: int, p3: bool,
                         return False
                 elif p_ not in executed or not _reach(g, b.nodes[p_], rn[s]):
                     return False
+    # (7) effective dependencies are preserved transitively, also through literals and rebuilt / stale registered nodes:
+    #     a ~> b in the logical plan along nodes that are unregistered or rebuilt  =>  "a is done" ~> "b begins" in the physical plan
+    def last_of(a):
+        return wn[a] if a in wn else (b.nodes[a] if a in executed else None)
+
+    def first_of(t):
+        if t in executed and sh.roles[t] in ("call", "store"):
+            return b.nodes[t]
+        if sh.roles[t] == "src" and S.get(t) and t in rn:
+            return rn[t]
+        if sh.roles[t] == "slit" and t in wn:
+            return wn[t]
+        return None
+
+    for a in range(sh.n):
+        la = last_of(a)
+        if la is None:
+            continue
+        seen, todo = set(), [a]
+        while todo:
+            x = todo.pop()
+            for (y, _k) in sh.succs[x]:
+                if y in seen:
+                    continue
+                seen.add(y)
+                ft_ = first_of(y)
+                if ft_ is not None and ft_ is not la and not _reach(g, la, ft_):
+                    return False
+                if (not sh.registered[y]) or S.get(y):
+                    todo.append(y)
     # (6) the output is the read node of a stored output
     if sh.out is not None:
         if sh.registered[sh.out]:
@@ -299,7 +341,7 @@ def c09_order(p0: bool, t0: int, p1: bool, t1: int, p2: bool, t2: int, p3: bool,
     for j in writes:
         if ("w", j) not in pos or (j in reads and not (pos[("w", j)] < pos.get(("r", j), -1))):
             return False
-        if not (pos.get(("c", j), 1 << 30) < pos[("w", j)]):
+        if sh.roles[j] == "store" and not (pos.get(("c", j), 1 << 30) < pos[("w", j)]):
             return False
     for (i, j, kind) in sh.edges:
         if j in executed and sh.roles[j] != "src" and sh.registered[i]:
